@@ -288,7 +288,8 @@ std::string cv_dump(NifFile& nif) {
 		bool f2 = true;
 		for (auto& c : n->childRefs) {
 			auto o = hdr.GetBlock<NiAVObject>(c);
-			os << (f2 ? "" : ",") << (o ? cv_jstr(std::string(o->GetBlockName()) + ":" + o->name.get()) : std::string("null"));
+			const char* kind = !o ? "" : dynamic_cast<NiShape*>(o) ? "S:" : dynamic_cast<NiNode*>(o) ? "N:" : "O:";
+			os << (f2 ? "" : ",") << (o ? cv_jstr(std::string(kind) + o->GetBlockName() + ":" + o->name.get()) : std::string("null"));
 			f2 = false;
 		}
 		os << "]}";
